@@ -373,6 +373,16 @@ func parent(p *props.Prop, cfg mon.Config) int {
 	if min == 0 {
 		min = 2
 	}
+	inconCases, allCases := 0, 0
+	for _, v := range merged.Classes {
+		allCases += v.Cases
+		for _, n := range v.Inconclusive {
+			inconCases += n
+		}
+	}
+	if inconCases*50 > allCases {
+		incon = append(incon, fmt.Sprintf("%d of %d cases were inconclusive (more than 2%%)", inconCases, allCases))
+	}
 	if nviol > 0 {
 		verdict = "violated"
 	} else if len(incon) > 0 || nontrivial < min {
@@ -404,7 +414,7 @@ func parent(p *props.Prop, cfg mon.Config) int {
 		cb, _ := json.Marshal(merged.Counters)
 		fmt.Printf("  counters %s\n", cb)
 	}
-	fmt.Printf("%s tier=%s seed=%d: %s — %d cases, %d distinct non-trivial, %d violation(s), %.1fs\n", cfg.Prop, cfg.Tier, cfg.Seed, verdict, total, nontrivial, nviol, time.Since(start).Seconds())
+	fmt.Printf("%s tier=%s seed=%d: %s — %d cases, %d distinct non-trivial, %d violation(s), %d inconclusive case(s), %.1fs\n", cfg.Prop, cfg.Tier, cfg.Seed, verdict, total, nontrivial, nviol, inconCases, time.Since(start).Seconds())
 	for _, l := range lines {
 		fmt.Println(l)
 	}
